@@ -429,6 +429,31 @@ def xsl_consts(repo, info):
     return '\n'.join(L) + '\n'
 
 
+def readme_consts(repo, info):
+    """The published contract of the intermediate tree: the node types listed under 'Valid types:' and the keys named in
+    the section 'Intermediate output structure' of README.md (keys of the first code block and back-quoted identifiers
+    at the start of a bullet)."""
+    text = open(os.path.join(repo, 'README.md'), encoding='utf-8').read()
+    m = re.search(r'^## Intermediate output structure\n(.*?)(?=^## )', text, re.S | re.M)
+    if not m:
+        raise TranslateError('README.md: section "Intermediate output structure" not found')
+    sec = m.group(1)
+    vt = re.search(r'^Valid types:\n\n((?:\* [^\n]*\n)+)', sec, re.M)
+    if not vt:
+        raise TranslateError('README.md: "Valid types:" list not found')
+    types_ = re.findall(r'^\* `(\w+)`', vt.group(1), re.M)
+    code = re.search(r'```\n(.*?)```', sec, re.S)
+    keys = set(re.findall(r'^\s*(\w+):', code.group(1), re.M)) if code else set()
+    keys -= {'key1', 'key2'}
+    rest = sec.replace(vt.group(1), '')
+    keys |= set(re.findall(r'^\* `(\w+)`:', rest, re.M))
+    keys |= set(re.findall(r'`(value|text)` attribute', rest))
+    info['readme'] = {'types': types_, 'keys': sorted(keys)}
+    return (f'/-- README.md, "Intermediate output structure": documented node types and keys -/\n'
+            f'def readmeTypes : List String := {lean_strs(types_)}\n'
+            f'def readmeKeys : List String := {lean_strs(sorted(keys))}\n')
+
+
 def generate(repo, out_dir=None):
     info = {}
     out_dir = out_dir or os.path.join(os.path.dirname(os.path.abspath(__file__)), '..', 'lean', 'Bluebell', 'Gen')
@@ -438,5 +463,6 @@ def generate(repo, out_dir=None):
     parts.append(xml_consts(repo, info))
     parts.append(types_consts(repo, info))
     parts.append(xsl_consts(repo, info))
+    parts.append(readme_consts(repo, info))
     parts.append('end Bluebell\n')
     return '\n'.join(parts), info
